@@ -52,6 +52,10 @@ import asmcommon as ac  # noqa: E402
 ID = 'C07'
 LEAN_MODULES = ['Py65.Props.C07'] + ac.ASM_GEN_MODULES + ['Py65.Props.C07g']
 NAMESPACES = ['Py65.Props.C07', 'Py65.Proofs.AsmGenEq', 'Py65.Props.C07g']
+# library helpers (CPython behaviour modelled in lean/Py65/Model/*Rt*.lean ...) that the generated code of these
+# modules calls, derived by scanning the Lean sources (harness/rtscan.py); validated against CPython on every run
+import rtcheck  # noqa: E402
+RT_HELPERS = rtcheck.helpers_for(LEAN_MODULES)
 LEVEL = 'proof'
 USES_GEN = True
 EXPECTED_THEOREMS = [
